@@ -17,6 +17,7 @@ from . import c11
 
 PROP = "c12"
 NEEDS_PARTNER = True
+GC_SEAM = True          # cyclic garbage collection only at the plan's "gc" operations
 NAMES = ["a", "b", "obs.xml", "y.xml.gz"]
 
 
@@ -53,7 +54,15 @@ def gen_plan(rng, tier):
                   "where": rng.choice(["session", "session", "partner"]), "enstags": rng.random() < 0.2, "symbol": rng.random() < 0.3, "who": rng.choice([None, None, "someone"])}
             if rng.random() < 0.15 and op["transport"] == "file":
                 op["fault"] = {"frac": round(rng.random(), 4), "err": rng.choice(["ENOSPC", "EIO"])}
+            elif rng.random() < 0.08 and op["transport"] == "file":
+                op["intr"] = rng.choice([round(rng.random(), 4), 0.9999, 0.995, 0.99, 0.98])      # Ctrl-C at a pyerrors line event (late ones: written, not closed)
             ops.append(op)
+            if "intr" in op and rng.random() < 0.6:
+                ops.append({k: v for k, v in op.items() if k != "intr"})      # the user runs the command again
+                if rng.random() < 0.5:
+                    ops.append({"op": "gc"})
+        elif r < 0.73:
+            ops.append({"op": "gc"})
         elif r < 0.85:
             ops.append({"op": "clock", "how": rng.choice(["advance", "jump_back", "us0", "far"]), "dt": rng.choice([0.001, 1.1, 59.5, 3600.0])})
         else:
@@ -219,7 +228,23 @@ def execute(plan, ctx):
             if op["op"] == "ident":
                 ident.user, ident.host = op["user"], op["host"]
                 continue
+            if op["op"] == "gc":
+                ctx.gc_point()
+                continue
             do_export(ctx, pe, op, plan, d, clock, faults, files, partner)
+        # final audit: abandoned file objects of interrupted / failed exports are finalised now at the latest; every
+        # acknowledged archive must still be what was acknowledged
+        ctx.step = len(plan["ops"])
+        ctx.gc_point("final")
+        for nm in sorted(files):
+            f = files[nm]
+            if isinstance(f, dict):
+                try:
+                    back = load(pe, f["m"])
+                except Exception as e:
+                    ctx.violation("c12.no_result", f["comp"], f["sep"], "import of an acknowledged export raised %s: %s (final audit)" % (type(e).__name__, str(e)[:140]))
+                    continue
+                judge(ctx, f["comp"], f["sep"], f["exp"], gen.canon(back), back, f["obsl"], "final_audit", "session")
     ctx.sim_time = clock.t - t0
 
 
@@ -304,6 +329,7 @@ def do_export(ctx, pe, op, plan, d, clock, faults, files, partner):
         else:
             pe.input.dobs.write_pobs(obsl, fn, "nm", gz=op["gz"], **kw_p)
         return c11.fname_resolved(fn, ".xml", op["gz"])
+    fkey = c11.fname_resolved(fname, ".xml", op["gz"])       # the model of the disk is kept per path (x.xml and x.xml.gz are two files)
     fault = op.get("fault")
     if fault:
         try:
@@ -313,6 +339,42 @@ def do_export(ctx, pe, op, plan, d, clock, faults, files, partner):
         except Exception:
             return
         faults.arm(int(fault["frac"] * size), fault["err"])
+    if op.get("intr") is not None and not fault:
+        st, v, nl = objs.run_interruptible(lambda: run_export(os.path.join(d, "probe_" + base.replace(".", "_"))), None)
+        if st != "done" or nl <= 2:
+            return
+        os.unlink(v)
+        st, v, _ = objs.run_interruptible(lambda: run_export(fname), 1 + int(op["intr"] * (nl - 1)))
+        if st == "interrupted":
+            ctx.fault("interrupt_at_line")
+            path = c11.fname_resolved(fname, ".xml", op["gz"])
+            m = {"fmt": fmt, "path": path, "gz": op["gz"], "sep_arg": sarg}
+            prev = files.get(fkey)
+            if os.path.exists(path):
+                old_ok = False
+                if isinstance(prev, dict) and prev["m"]["path"] == path:
+                    try:
+                        old_ok = not diff_with_known(prev["exp"], gen.canon(load(pe, prev["m"])))
+                    except Exception:
+                        old_ok = False
+                if old_ok:
+                    ctx.probe("interrupted_before_open_old_archive_intact")
+                    return
+                try:
+                    got = gen.canon(load(pe, m))
+                    dd = diff_with_known(exp, got)
+                    if dd:
+                        ctx.violation("c12.torn_archive_loaded", comp, "interrupt", "archive left by an interrupted export imported as something else: %s" % dd)
+                    else:
+                        ctx.probe("torn_archive_complete_and_equal")
+                except Exception:
+                    ctx.probe("torn_archive_rejected")
+            files[fkey] = "fault"
+            ctx.sig(comp, "interrupt")
+            return
+        if st == "raised":
+            ctx.violation("c12.no_result", comp, sep, "export raised %s" % type(v).__name__)
+            return
     try:
         path = run_export(fname)
         raised = None
@@ -339,15 +401,15 @@ def do_export(ctx, pe, op, plan, d, clock, faults, files, partner):
                         ctx.violation("c12.torn_archive_loaded", comp, fault["err"], "archive left by a failed export imported as something else: %s" % dd)
             except Exception:
                 ctx.probe("torn_archive_rejected")
-        files[op["name"]] = "fault"
+        files[fkey] = "fault"
         ctx.sig(comp, "fault")
         return
     if raised is not None:
         ctx.violation("c12.no_result", comp, sep, "export raised %s: %s" % (type(raised).__name__, str(raised)[:140]))
         return
-    if op["name"] in files:
-        hist = "overwrite_after_fault" if files[op["name"]] == "fault" else "overwrite"
-    files[op["name"]] = "ok"
+    if fkey in files:
+        hist = "overwrite_after_fault" if files[fkey] == "fault" else "overwrite"
+    files[fkey] = {"m": m, "exp": exp, "comp": comp, "sep": sep, "obsl": obsl}
     if op["where"] == "partner":
         r = partner.call(m)
         if r[0] != "ok":
@@ -363,6 +425,16 @@ def do_export(ctx, pe, op, plan, d, clock, faults, files, partner):
             return
         judge(ctx, comp, sep, exp, gen.canon(back), back, obsl, hist, "session")
     ctx.sig(comp, sep, "n%d" % len(obsl), "E%d" % len(group["ens"]), kinds(group), hist, op["where"])
+
+
+def diff_with_known(exp, got):
+    """difference between expectation and import that is not the known zero-sample finding, or None"""
+    dd = gen.diff(exp, got, check_tag=False, check_rw=False)
+    if dd:
+        adj, nd = adjusted_for_zero_samples(exp)
+        if nd and not gen.diff(adj, got, check_tag=False, check_rw=False, tol=256 * np.finfo(float).eps):
+            return None
+    return dd
 
 
 def kinds(group):
